@@ -636,6 +636,37 @@ func CheckC12(tier string, seed uint64, rep *core.Reporter) (*core.Evidence, err
 				doRun(&c12Run{ID: fmt.Sprintf("%d-go%d", wi, k), Files: s2.ProjectFiles(g2), Pre: clone(), Kind: "regenerate-go-only-edit",
 					Op: Op{Kind: "Gen", Binary: []string{"sim", "plain"}[r.Intn(2)], Map: randMap(r), Cwd: cwdModes[r.Intn(len(cwdModes))]}})
 			}
+			// declarations made twice: a mode block, a token, a parser rule, a macro
+			for k := 0; k < 2; k++ {
+				cs := cloneSpec(spec)
+				var what string
+				switch r.Intn(5) {
+				case 0:
+					m := &specgen.LexMode{Name: "Dup", Rules: []*specgen.LexRule{{Kind: specgen.RTok, Name: "DUPTOK", Expr: &specgen.LexExpr{Op: specgen.LLit, Lit: "%"}, Actions: []specgen.LexAction{{Kind: specgen.APop}}}}}
+					m2 := &specgen.LexMode{Name: "Dup", Rules: []*specgen.LexRule{{Kind: specgen.RTok, Name: "DUPTOK2", Expr: &specgen.LexExpr{Op: specgen.LLit, Lit: "^"}}}}
+					cs.Modes = append(cs.Modes, m, m2)
+					what = "mode-twice"
+				case 1:
+					if len(cs.Modes) > 1 {
+						cs.Modes = append(cs.Modes, cs.Modes[len(cs.Modes)-1])
+					} else {
+						cs.Modes = append(cs.Modes, &specgen.LexMode{Name: cs.TokenNames()[0]})
+					}
+					what = "mode-block-repeated-or-named-like-a-token"
+				case 2:
+					first := cs.Modes[0].Rules[0]
+					cs.Modes[0].Rules = append(cs.Modes[0].Rules, first)
+					what = "lexer-rule-twice"
+				case 3:
+					cs.Rules = append(cs.Rules, cs.Rules[len(cs.Rules)-1])
+					what = "parser-rule-twice"
+				default:
+					cs.Rules = append(cs.Rules, &specgen.Rule{Name: cs.TokenNames()[0], Prods: []*specgen.Prod{{}}}, &specgen.Rule{Name: "EOF", Prods: []*specgen.Prod{{}}})
+					what = "parser-rule-named-like-a-token"
+				}
+				doRun(&c12Run{ID: fmt.Sprintf("%d-d%d", wi, k), Files: cs.ProjectFiles(gv), Kind: "duplicate-declarations", Faults: []string{what},
+					Op: Op{Kind: "Gen", Binary: "sim", Map: randMap(r), Cwd: cwdModes[r.Intn(len(cwdModes))]}})
+			}
 			// grammars that are not LALR(1): must be diagnosed, not crash
 			for k := 0; k < 3; k++ {
 				cs := specgen.GenerateConflicting(r.Uint64())
